@@ -35,8 +35,9 @@ SHARDS = {'quick': 4, 'thorough': 16}
 MIN_EVALS = {'quick': 6000, 'thorough': 100000}
 CLASS_FLOORS = {'L1:parse': 0.15, 'L1:decomp': 0.10, 'L2': 0.15, 'accepted': 0.08, 'fstring': 0.03, 'shadowed_name_used': 0.02}
 
-FORMS_COND = ('str', 'str_ns', 'str_lam', 'gen', 'lam', 'filt', 'where', 'lam_far', 'filt_far', 'where_far')
-FORMS_ELT = ('str', 'str_ns', 'gen')
+FORMS_COND = ('str', 'str_ns', 'str_lam', 'gen', 'lam', 'filt', 'where', 'lam_far', 'filt_far', 'where_far',
+              'gen_far', 'gen_far_count', 'gen_far_exists', 'gen_far_max')
+FORMS_ELT = ('str', 'str_ns', 'gen', 'gen_far')
 
 
 _SAMPLED = {}
